@@ -1,6 +1,7 @@
 package checks
 
 import (
+	"errors"
 	"encoding/json"
 	"fmt"
 	"net/url"
@@ -185,6 +186,7 @@ var forestShapes = []shapeDef{
 	{name: "file-local-ref-under-inline-items", ext: true, schemaOnly: true},
 	{name: "two-files-same-component-name", ext: true},
 	{name: "same-file-two-spellings", ext: true},
+	{name: "fragment-of-whole-file-component", ext: true, nested: true},
 	{name: "non-components-fragment"},
 	{name: "pure-ref-loop"},
 	{name: "dangling-internal"},
@@ -192,6 +194,21 @@ var forestShapes = []shapeDef{
 	{name: "dangling-fragment-in-file", ext: true},
 	{name: "wrong-kind-internal"},
 	{name: "wrong-kind-in-file", ext: true},
+}
+
+// fragmentPointer is the JSON pointer of an internal reference, percent-decoded.
+func fragmentPointer(refStr string) string {
+	p := strings.TrimPrefix(refStr, "#")
+	if u, err := url.PathUnescape(p); err == nil {
+		p = u
+	}
+	return p
+}
+
+// where the nested schema of targetObject(kind) sits
+var nestedSchemaPointer = map[string]string{
+	"schema": "/properties/v", "parameter": "/schema", "header": "/schema",
+	"requestBody": "/content/application~1json/schema", "response": "/content/application~1json/schema",
 }
 
 func shapesFor(kind string) []shapeDef {
@@ -204,6 +221,9 @@ func shapesFor(kind string) []shapeDef {
 			continue
 		}
 		if s.name == "non-components-fragment" && kind != "schema" && kind != "response" && kind != "parameter" {
+			continue
+		}
+		if s.name == "fragment-of-whole-file-component" && nestedSchemaPointer[kind] == "" {
 			continue
 		}
 		out = append(out, s)
@@ -376,6 +396,13 @@ func BuildForest(kind, shape string, pos Position, layout, spelling, entry strin
 		files[f1Loc] = componentsDoc(map[string]map[string]any{sec: {"Tgt": targetObject(kind, "")}})
 		addComponent(root, sec, "Second", map[string]any{"$ref": relRef(rootLoc, f1Loc, "detour") + frag(sec, "Tgt")})
 		planted = r1 + frag(sec, "Tgt")
+	case "fragment-of-whole-file-component":
+		// a root component that is a reference to a whole file, and (in a component that sorts before it) a reference to a fragment of that file
+		files[f1Loc] = targetObject(kind, "")
+		addComponent(root, sec, "Zed", map[string]any{"$ref": relRef(rootLoc, f1Loc, "plain")})
+		addComponent(root, "schemas", "Aaa", map[string]any{"type": "object", "description": "AAA", "properties": map[string]any{
+			"inner": map[string]any{"$ref": relRef(rootLoc, f1Loc, "plain") + "#" + nestedSchemaPointer[kind]}}})
+		planted = r1
 	case "non-components-fragment":
 		switch kind {
 		case "schema":
@@ -415,6 +442,12 @@ func BuildForest(kind, shape string, pos Position, layout, spelling, entry strin
 	}
 	if !SetAt(root, pos.Ptr, map[string]any{"$ref": planted}) {
 		panic("cannot plant at " + pos.String())
+	}
+	if shape == "non-components-fragment" {
+		// planted at (or on the way to) its own target, the reference is a loop of references: the reference resolver decides
+		if _, err := ref.Resolve(ref.Files{rootLoc: root}, rootLoc, planted); errors.Is(err, ref.ErrLoop) {
+			f.Expect = "loop"
+		}
 	}
 	files[rootLoc] = root
 	for loc, d := range files {
